@@ -32,6 +32,11 @@ type Env struct {
 	Nonce  uint64
 
 	LastMessage string // return message of the last Sys call
+
+	// NotifyEpochs makes SetHeader also report the header to the node's epoch notifier, as a running
+	// node does at every epoch change, so that feature flags activated by "epoch > N" rules (e.g. the
+	// delegation contract's staking-v2 flag, which selects GetIntTrimmedPercentageOfValue) follow Epoch.
+	NotifyEpochs bool
 }
 
 // New builds a metachain node with the delegation manager initialised and header nonce 1, epoch 0
@@ -47,7 +52,11 @@ func New() *Env {
 
 // SetHeader publishes the current (nonce, epoch) to the blockchain hook
 func (e *Env) SetHeader() {
-	e.Tpn.BlockchainHook.SetCurrentHeader(&block.MetaBlock{Nonce: e.Nonce, Epoch: e.Epoch, Round: e.Nonce})
+	hdr := &block.MetaBlock{Nonce: e.Nonce, Epoch: e.Epoch, Round: e.Nonce}
+	e.Tpn.BlockchainHook.SetCurrentHeader(hdr)
+	if e.NotifyEpochs {
+		e.Tpn.EpochNotifier.CheckEpoch(hdr)
+	}
 }
 
 // CleanSCRs drops the smart contract results accumulated so far
